@@ -115,7 +115,10 @@ def proof_step(prop):
     text = open(src).read()
     theorems = re.findall(r'^\s*Theorem\s+(\w+)', text, re.M)
     t0 = time.time()
+    rc0, out0 = sh('timeout 3000 make props/%s.vo 2>&1 | tail -30' % prop, cwd=COQ)   # dependencies up to date
     rc, out = sh('timeout 1800 coqc -Q . V props/%s.v' % prop, cwd=COQ)
+    if rc != 0:
+        out = out0 + out
     blocks = []
     cur = None
     for line in out.split('\n'):
